@@ -2,7 +2,7 @@
 """ingest_seeds.py <property>: re-verifies the two seeded changes a sub-agent left in /tmp/wt-<property> and, when they hold
 up (build, suite green with the change, demonstration fails with it and passes without), keeps them under seeded/."""
 import json, os, shutil, subprocess, sys, re
-prop=sys.argv[1]; wt='/tmp/wt-'+prop
+prop=sys.argv[1]; wt=sys.argv[2] if len(sys.argv)>2 else '/tmp/wt-'+prop; tag=sys.argv[3] if len(sys.argv)>3 else 's'
 seedsmd=open(wt+'/SEEDS.md').read() if os.path.exists(wt+'/SEEDS.md') else ''
 for n in (1,2):
     if not os.path.exists(f'{wt}/seed{n}.diff'):
@@ -13,7 +13,7 @@ for n in (1,2):
     caught=prop in res.get('fired','')
     print(prop,n,'ok=%s'%res['ok'],'suite=%s'%res['suite'],'fired=%s'%res['fired'].strip(),'CAUGHT' if caught else 'MISSED')
     if not res['ok']: continue
-    d=f'/verif/seeded/{prop}-s{n}'; os.makedirs(d,exist_ok=True)
+    d=f'/verif/seeded/{prop}-{tag}{n}'; os.makedirs(d,exist_ok=True)
     shutil.copy(f'{wt}/seed{n}.diff',d+'/patch.diff'); shutil.copy(f'{wt}/zz_seed{n}_test.go.txt',d+'/demo_test.go.txt')
     # the agent's own description of this seed
     m=re.split(r'\n## ',seedsmd)
